@@ -9,9 +9,22 @@ import (
 	"golang.org/x/tools/go/ssa"
 )
 
+type starEff struct {
+	comp string
+	arg  ssa.Value
+}
+
 type effects struct {
 	all   bool
 	comps []string
+	stars []starEff // "*param" effects on pointer arguments: resolved by the caller (fresh object or not)
+}
+
+func (eff *effects) flatten() {
+	for _, s := range eff.stars {
+		eff.comps = append(eff.comps, s.comp)
+	}
+	eff.stars = nil
 }
 
 // expandAssigns turns "Type.field" shorthands of a contract into heap component prefixes.
@@ -89,9 +102,9 @@ func (p *Program) contractEffectsAt(fc *FuncContract, callee *ssa.Function, c *s
 					if _, isAlloc := mi.X.(*ssa.Alloc); isAlloc {
 						break
 					}
-					eff.comps = append(eff.comps, "H."+typeID(u.Elem())+".")
+					eff.stars = append(eff.stars, starEff{"H." + typeID(u.Elem()) + ".", mi.X})
 				} else {
-					eff.comps = append(eff.comps, "H."+typeID(u.Elem())+".")
+					eff.stars = append(eff.stars, starEff{"H." + typeID(u.Elem()) + ".", args[i]})
 				}
 			case *types.Slice:
 				eff.comps = append(eff.comps, "E."+typeID(u.Elem())+".")
@@ -187,6 +200,7 @@ func (p *Program) bodyEffects(fn *ssa.Function, depth int) effects {
 				id, callee := p.calleeID(c)
 				if fc := p.lookupContract(id); fc != nil {
 					sub := p.contractEffectsAt(fc, callee, c)
+					sub.flatten()
 					if sub.all {
 						eff.all = true
 					}
@@ -323,9 +337,16 @@ func (e *Engine) call(fr *Frame, st *State, reach Term, site ssa.Instruction, c 
 	}
 	e.note("call to %s has no contract: results and all heap state havoc'd", id)
 	e.used["uncontracted:"+id] = true
+	e.exposing = true
 	for _, a := range args {
 		e.flat(st, reach, a) // arguments escape
+		if a.Clo != nil {
+			for _, b := range a.Clo.Bindings {
+				e.flat(st, reach, b)
+			}
+		}
 	}
+	e.exposing = false
 	st.havocPrefix([]string{""}, true)
 	res := e.havocVal(reach, "res."+label, resType)
 	e.labels[label] = &callLabel{Reach: reach, Args: args, Results: splitResults(res)}
@@ -470,10 +491,16 @@ func (e *Engine) applyContract(fr *Frame, st *State, reach Term, fc *FuncContrac
 	}
 	old := st.clone()
 	// arguments escape
-	var flatArgs [][]Term
+	e.exposing = true
 	for _, a := range args {
-		flatArgs = append(flatArgs, e.flat(st, reach, a))
+		e.flat(st, reach, a)
+		if a.Clo != nil {
+			for _, b := range a.Clo.Bindings {
+				e.flat(st, reach, b)
+			}
+		}
 	}
+	e.exposing = false
 	eff := e.P.expandAssigns(fc)
 	type objHavoc struct {
 		ref  Term
@@ -537,13 +564,24 @@ func (e *Engine) applyContract(fr *Frame, st *State, reach Term, fc *FuncContrac
 		}
 	}
 	// results
+	e.noOutside = true
 	res := e.havocVal(reach, "res."+label, resType)
+	e.noOutside = false
 	results := splitResults(res)
+	isFresh := map[int]bool{}
 	for _, k := range fc.Fresh {
 		if k < len(results) && len(results[k].L) >= 1 {
+			isFresh[k] = true
 			site, r := e.newSite(results[k].T)
-			e.reified[site] = true
+			e.reified[site] = true // the callee may have kept a reference
 			e.assume(reach, Eq(results[k].L[0], r))
+		}
+	}
+	for k, r := range results {
+		for i, l := range Layout(r.T) {
+			if (l.Kind == kRef || l.Kind == kSlArr || l.Kind == kIfRef) && !(isFresh[k] && i == 0) {
+				e.outsideRef(reach, r.L[i])
+			}
 		}
 	}
 	post := map[string]Val{}
@@ -814,8 +852,7 @@ func (e *Engine) appendOp(fr *Frame, st *State, reach Term, c *ssa.CallCommon, a
 	}
 	nLen := e.define("alen", Bin(SInt, "+", sLen, tLen))
 	grow := e.define("agrow", Bin(SBool, ">", nLen, sCap))
-	site, nr := e.newSite(types.NewSlice(et))
-	e.reified[site] = true
+	_, nr := e.newSite(types.NewSlice(et))
 	rArr := e.define("aarr", Ite(grow, nr, sArr))
 	rOff := e.define("aoff", Ite(grow, IntLit(0), sOff))
 	nCap := e.fresh("acap", SInt)
@@ -825,31 +862,29 @@ func (e *Engine) appendOp(fr *Frame, st *State, reach Term, c *ssa.CallCommon, a
 		name := "E." + typeID(et) + "." + lf.Path
 		inSort := ArraySort(SInt, lf.Sort)
 		arr := st.comp(name, ArraySort(SInt, inSort))
-		oldInner := Select(arr, sArr, inSort)
-		// base contents of the result array before writing the new elements
-		cp := e.fresh("acopy", inSort)
-		e.assumes = append(e.assumes, T(SBool, "(forall ((i Int)) (! (=> (and (<= 0 i) (< i %s)) (= (select %s i) (select %s (+ %s i)))) :pattern ((select %s i))))",
-			sLen, cp, oldInner, sOff, cp))
-		base := Ite(grow, cp, oldInner)
-		var newInner Term
+		oldInner := e.define("aold", Select(arr, sArr, inSort))
+		ni := e.fresh("anew", inSort)
+		// kept prefix
+		e.assumes = append(e.assumes, T(SBool, "(forall ((a Int)) (! (=> (and (<= %s a) (< a (+ %s %s))) (= (select %s a) (select %s (+ (- a %s) %s)))) :pattern ((select %s a))))",
+			rOff, rOff, sLen, ni, oldInner, rOff, sOff, ni))
+		// appended elements
 		if !tIsStr && isConstOne(tLen) {
 			tv := Select(Select(arr, t.L[0], inSort), t.L[1], lf.Sort)
-			newInner = Store(base, Bin(SInt, "+", rOff, sLen), tv)
+			e.assumes = append(e.assumes, Eq(Select(ni, Bin(SInt, "+", rOff, sLen), lf.Sort), tv))
 		} else {
-			ni := e.fresh("anew", inSort)
-			b := e.define("abase", base)
 			var src string
 			if tIsStr {
-				src = fmt.Sprintf("(strat %s j)", t.L[0])
+				src = fmt.Sprintf("(strat %s (- a (+ %s %s)))", t.L[0], rOff, sLen)
 			} else {
-				src = fmt.Sprintf("(select %s (+ %s j))", Select(arr, t.L[0], inSort), t.L[1])
+				src = fmt.Sprintf("(select %s (+ (- a (+ %s %s)) %s))", Select(arr, t.L[0], inSort), rOff, sLen, t.L[1])
 			}
-			e.assumes = append(e.assumes,
-				T(SBool, "(forall ((j Int)) (! (=> (and (<= 0 j) (< j %s)) (= (select %s (+ %s %s j)) %s)) :pattern ((select %s (+ %s %s j)))))", tLen, ni, rOff, sLen, src, ni, rOff, sLen),
-				T(SBool, "(forall ((i Int)) (! (=> (or (< i (+ %s %s)) (>= i (+ %s %s))) (= (select %s i) (select %s i))) :pattern ((select %s i))))", rOff, sLen, rOff, nLen, ni, b, ni))
-			newInner = ni
+			e.assumes = append(e.assumes, T(SBool, "(forall ((a Int)) (! (=> (and (<= (+ %s %s) a) (< a (+ %s %s))) (= (select %s a) %s)) :pattern ((select %s a))))",
+				rOff, sLen, rOff, nLen, ni, src, ni))
 		}
-		st.setComp(name, e.define("h", Store(arr, rArr, newInner)))
+		// in place: the rest of the backing array is untouched
+		e.assumes = append(e.assumes, Implies(Not(grow), T(SBool, "(forall ((a Int)) (! (=> (or (< a %s) (>= a (+ %s %s))) (= (select %s a) (select %s a))) :pattern ((select %s a))))",
+			rOff, rOff, nLen, ni, oldInner, ni)))
+		st.setComp(name, e.define("h", Store(arr, rArr, ni)))
 	}
 	return Val{T: resType, L: []Term{rArr, rOff, nLen, nCap}}
 }
@@ -884,13 +919,13 @@ func (e *Engine) copyOp(st *State, reach Term, args []Val, resType types.Type) V
 		ni := e.fresh("cpnew", inSort)
 		var src string
 		if srcStr {
-			src = fmt.Sprintf("(strat %s i)", s.L[0])
+			src = fmt.Sprintf("(strat %s (- a %s))", s.L[0], d.L[1])
 		} else {
-			src = fmt.Sprintf("(select %s (+ %s i))", Select(arr, s.L[0], inSort), s.L[1])
+			src = fmt.Sprintf("(select %s (+ (- a %s) %s))", Select(arr, s.L[0], inSort), d.L[1], s.L[1])
 		}
 		e.assumes = append(e.assumes,
-			T(SBool, "(forall ((i Int)) (! (=> (and (<= 0 i) (< i %s)) (= (select %s (+ %s i)) %s)) :pattern ((select %s (+ %s i)))))", n, ni, d.L[1], src, ni, d.L[1]),
-			T(SBool, "(forall ((i Int)) (! (=> (or (< i %s) (>= i (+ %s %s))) (= (select %s i) (select %s i))) :pattern ((select %s i))))", d.L[1], d.L[1], n, ni, oldInner, ni))
+			T(SBool, "(forall ((a Int)) (! (=> (and (<= %s a) (< a (+ %s %s))) (= (select %s a) %s)) :pattern ((select %s a))))", d.L[1], d.L[1], n, ni, src, ni),
+			T(SBool, "(forall ((a Int)) (! (=> (or (< a %s) (>= a (+ %s %s))) (= (select %s a) (select %s a))) :pattern ((select %s a))))", d.L[1], d.L[1], n, ni, oldInner, ni))
 		st.setComp(name, e.define("h", Store(arr, d.L[0], ni)))
 	}
 	return Val{T: resType, L: []Term{n}}
